@@ -615,7 +615,7 @@ def build(repo, sidecar_path, extra_spec=None):
             text = text[:bo + 1] + '\n' + ',\n'.join(kept) + ',\n    VerifOtherVariants,\n}'
             g.rewrites.append({'tag': 'R7e', 'where': where, 'before': 'variants ' + ', '.join(dropped),
                                'after': 'single catch-all variant VerifOtherVariants', 'count': len(dropped)})
-        if item.keep_fields is not None and item.kind == 'struct':
+        if (item.keep_fields is not None or item.add_fields) and item.kind == 'struct':
             # R7 for structs: keep only the fields the extracted functions touch (all other fields
             # are dropped: nothing extracted reads or writes them); ghost fields may be added
             bo = body_open(text, 0)
@@ -643,11 +643,11 @@ def build(repo, sidecar_path, extra_spec=None):
                 m_ = re.match(r'(?:#\[[^\]]*\]\s*)*(?:pub(?:\([^)]*\))?\s+)?([A-Za-z_][A-Za-z0-9_]*)\s*:', body_nc)
                 if not m_:
                     continue
-                if m_.group(1) in item.keep_fields:
+                if item.keep_fields is None or m_.group(1) in item.keep_fields:
                     kept.append('    ' + body_nc)
                 else:
                     dropped.append(m_.group(1))
-            missing = [v for v in item.keep_fields if not any(re.search(r'\b' + re.escape(v) + r'\s*:', k) for k in kept)]
+            missing = [v for v in (item.keep_fields or []) if not any(re.search(r'\b' + re.escape(v) + r'\s*:', k) for k in kept)]
             if missing:
                 raise ExtractionLost('%s: fields not found: %s' % (where, missing))
             text = text[:bo + 1] + '\n' + ',\n'.join(kept + ['    ' + a for a in item.add_fields]) + ',\n}'
